@@ -495,6 +495,9 @@ type n2Case struct {
 	SLegacyK int        `json:"slegacy_kind"`
 	SVer     []verEntry `json:"sversioned"`
 	Factory  bool       `json:"factory"`
+	// Inherited: a PLUGIN_PROTOCOL_VERSIONS value already present in the host's own environment (the host is itself a
+	// plugin); the host passes its environment on (SkipHostEnv off) and the offer it makes must still be its own
+	Inherited string `json:"inherited,omitempty"`
 }
 
 func init() { families["negotiate2"] = runNegotiate2 }
@@ -547,6 +550,15 @@ func genNegotiate2(o opts) []n2Case {
 		if !c.CLegacy && len(c.CVer) == 0 {
 			c.CLegacy = true
 		}
+		if r.Intn(3) == 0 {
+			c.Inherited = hk.Pick(r, []string{"1", "7", "x,1", "0", "2,3", "5,4,3,2,1,0", ","})
+		}
+		cs = append(cs, c)
+	}
+	// the directed cases once more, each under an inherited list
+	for i, inh := range []string{"1", "7", "x,1", "2", "3", "1", "0"} {
+		c := cs[i]
+		c.Inherited = inh
 		cs = append(cs, c)
 	}
 	return cs
@@ -635,6 +647,12 @@ func runNegotiate2(o opts) error {
 			fmt.Fprintf(s.StdoutW, "1|%d|tcp|127.0.0.1:1234|%s|\n", v, p)
 		}
 		ccfg.RunnerFunc = sr.RunnerFunc(nil)
+		if c.Inherited != "" {
+			ccfg.SkipHostEnv = false
+			os.Setenv("PLUGIN_PROTOCOL_VERSIONS", c.Inherited)
+		} else {
+			os.Unsetenv("PLUGIN_PROTOCOL_VERSIONS")
+		}
 		cl := plugin.NewClient(ccfg)
 		_, serr := cl.Start()
 		ok, ver, csid := 0, 0, -1
